@@ -501,7 +501,11 @@ def synth_ff_text(rnd):
             # both atoms must sit in one residue although a cross-residue A-B bond may exist
             out += ['[ pairs ]', 'A B 1 0.1 0.2', '[ edges ]', 'A B']
         elif kind == 'nonedge':
-            out += ['[ bonds ]', 'A B 1 0.31 2000', '[ non-edges ]', 'A +A']
+            # one to three non-edges, towards the next / previous / own residue, from either link atom
+            ne = rnd.sample(['A +A', 'A +B', 'B +A', 'A -A', 'A +C', 'B +B', 'A C', 'B -B'], rnd.choice([1, 1, 2, 3]))
+            if rnd.random() < 0.4:
+                ne = ['A +A']
+            out += ['[ bonds ]', 'A B 1 0.31 %d' % rnd.choice([2000, 2100]), '[ non-edges ]'] + ne
         elif kind == 'pattern':
             out += ['[ angles ]', 'A +A +B 2 100 10', '[ patterns ]', 'A +A {"resname": "XA"} +B', 'A +A {"resname": "XB"} +B']
         elif kind == 'molmeta':
@@ -556,7 +560,21 @@ def build_synth(rnd):
             u, v = inter.atoms
             mol.add_interaction('bonds', (local[u], local[v]), list(inter.parameters), dict(inter.meta))
             mol.add_edge(local[u], local[v])
-        if prev is not None and rnd.random() < 0.9:
+        if prev is not None and rnd.random() < 0.5:
+            # branched connection to the next residue, registered before or after the main-chain bond: an anchor then has
+            # several neighbours in one residue, in either adjacency order
+            branch = [(x, y) for x in sorted(prev) for y in sorted(local) if (x, y) != ('A', 'A')]
+            pick = rnd.sample(branch, min(len(branch), rnd.randint(1, 2)))
+            before = rnd.random() < 0.6
+            if before:
+                for x, y in pick:
+                    mol.add_edge(prev[x], local[y])
+            if rnd.random() < 0.9:
+                mol.add_edge(prev['A'], local['A'])
+            if not before:
+                for x, y in pick:
+                    mol.add_edge(prev[x], local[y])
+        elif prev is not None and rnd.random() < 0.9:
             mol.add_edge(prev['A'], local['A'])
         first[i] = local
         prev = local
